@@ -385,8 +385,11 @@ class Ctx:
                 f.write(blob)
         self.violations.append((key, clause, path))
         if len(self.violations) <= 20:
-            print("VIOLATION property=%s replay=%s   # clause=%s key=%s %s"
-                  % (self.prop_id, path, clause, key, what), flush=True)
+            # ids starting with X are specification-coverage extras (not listed properties): same exit code,
+            # but never a VIOLATION line for a property id that does not exist
+            head = "NONCONFORMANCE extra" if self.prop_id.startswith("X") else "VIOLATION property"
+            print("%s=%s replay=%s   # clause=%s key=%s %s"
+                  % (head, self.prop_id, path, clause, key, what), flush=True)
         return True
 
     # ------------------------------------------------------------------ finish
@@ -427,7 +430,9 @@ class Ctx:
         if os.path.realpath(REPO) != "/repo":
             # a development run against a scratch copy (VERIF_REPO): never overwrite the registered evidence
             evname = "%s.scratch.json" % self.prop_id
-        with open(os.path.join(VERIF, "evidence", evname), "w") as f:
+        evdir = os.path.join(VERIF, "evidence_extras" if self.prop_id.startswith("X") else "evidence")
+        os.makedirs(evdir, exist_ok=True)
+        with open(os.path.join(evdir, evname), "w") as f:
             json.dump(ev, f, indent=1, default=str)
         self.cleanup()
         print("%s %s: states=%d transitions=%d traces=%d nontrivial=%d violations=%d known=%d drift=%d wall=%.0fs"
